@@ -111,13 +111,15 @@ class C11(Prop):
     rule = ('case = (free cores, [(running, ready)] for 0..12 users, the users\' counters sharded over 1..16 tokens of user_inst_coll_resources '
             'with negative shards that sum to the totals, rows of other instance collections, users whose shards cancel to zero; the free cores are held by 1..6 real Instance workers of a real Pool, some oversubscribed '
             '(negative free cores), some unhealthy (not counted); a quarter of the cases make 2-3 compute_fair_share calls on the one scheduler that overlap at the '
-            'query and are resumed in a random order, each with its own workers; a third of the cases use the other callers: an explicit total '
+            'query and are resumed in a random order, each with its own workers; some cases make 2-3 calls one after the other with the rows of '
+            'user_inst_coll_resources changed in between and the (patched) clock advanced by 0 ms .. 5 s; a third of the cases use the other callers: an explicit total '
             '(0, negative, any) passed to _compute_fair_share, or the real autoscaler entry Pool.regions_to_ready_cores_mcpu_from_estimated_job_queue '
             'computing its total from worker_cores / max_new_instances_per_autoscaler_loop / loop period, while the workers have room); values from small/tie-heavy pools, multiples of 250 mcpu and up to 2^40; '
             'free drawn from {<=0, 1..n, a random point of a random segment between breakpoints, half-integer rounding boundaries of the final '
             'division, total demand +-1, more than demand}; non-trivial = free > 0, >= 2 users and demand > free (the loop must stop part-way); '
             'distinct by full case')
-    trusted = ['a scheduling point before each query (harness gate standing for the network round trip) orders overlapping calls',
+    trusted = ['time.time / monotonic / *_ns / perf_counter and every imported time_msecs are the harness clock',
+               'a scheduling point before each query (harness gate standing for the network round trip) orders overlapping calls',
                'harness/minisql executes the SQL text of the demand query (GROUP BY / HAVING / SUM / CAST / COALESCE) on generated rows of '
                'user_inst_coll_resources; real gear.database.Database over harness/minisql/fakepool',
                'IEEE-754: int(free / n + 0.5) equals trunc((2*free + n) / (2n)) for the magnitudes used (<= 2^44)']
@@ -157,6 +159,12 @@ class C11(Prop):
             worker_external_ssd_data_disk_size_gb=0, standing_worker_cores=16, boot_disk_size_gb=10, min_instances=0, max_instances=10,
             max_live_instances=10, preemptible=True, max_new_instances_per_autoscaler_loop=1, autoscaler_loop_period_secs=15,
             worker_max_idle_time_secs=30, standing_worker_max_idle_time_secs=30, job_queue_scheduling_window_secs=150, label='')
+        # every clock the code might read is the harness clock (self.now_ms); time.* are patched around each case
+        import sys as _sys
+        self.now_ms = 1_700_000_000_000
+        for name, mod in list(_sys.modules.items()):
+            if mod is not None and name.split('.')[0] in ('batch', 'hailtop', 'gear') and callable(getattr(mod, 'time_msecs', None)):
+                mod.time_msecs = lambda: self.now_ms
         self.how = ('PoolScheduler.compute_fair_share of a real Pool (real Instance workers added through Pool.add_instance); '
                     'real gear Database over minisql executes the demand query')
 
@@ -228,30 +236,33 @@ class C11(Prop):
     COLS = ('n_ready_jobs', 'ready_cores_mcpu', 'n_running_jobs', 'running_cores_mcpu')
 
     @staticmethod
-    def _shards(c):
+    def _shards(c, call=None):
         """rows of user_inst_coll_resources for the pool: [user index, token, n_ready_jobs, ready_cores, n_running_jobs, running_cores];
-        a case without explicit shards keeps every user's counters on token 0"""
+        a case without explicit shards keeps every user's counters on token 0; in a sequence of calls a call may come with the rows
+        as they are at its time"""
+        if call is not None and call.get('rows') is not None:
+            return [list(r) for r in call['rows']]
         if c.get('rows') is not None:
             return [list(r) for r in c['rows']]
         return [[i, 0, _njobs(d), d, _njobs(r), r] for i, (r, d) in enumerate(c['users'])]
 
-    def _totals(self, c):
+    def _totals(self, c, call=None):
         """per-user SUMS over the token shards: (running cores, ready cores, n jobs) -- what the property speaks about"""
         n = len(c['users'])
         tot = [[0, 0, 0] for _ in range(n)]
-        for ui, _tok, nr, rc, nrun, runc in self._shards(c):
+        for ui, _tok, nr, rc, nrun, runc in self._shards(c, call):
             if ui < n:
                 tot[ui][0] += runc
                 tot[ui][1] += rc
                 tot[ui][2] += nr + nrun
         return tot
 
-    def _users(self, c):
-        return [(r, d) for r, d, _n in self._totals(c)]
+    def _users(self, c, call=None):
+        return [(r, d) for r, d, _n in self._totals(c, call)]
 
-    def _real(self, c):
+    def _load(self, c, call=None):
         rows = []
-        for ui, tok, nr, rc, nrun, runc in self._shards(c):
+        for ui, tok, nr, rc, nrun, runc in self._shards(c, call):
             rows.append({'user': f'u{ui}', 'inst_coll': 'standard', 'token': tok, 'n_ready_jobs': nr, 'ready_cores_mcpu': rc,
                          'n_running_jobs': nrun, 'running_cores_mcpu': runc})
         for ui, tok, coll, nr, rc, nrun, runc in c.get('other') or []:       # other instance collections: must not be counted
@@ -260,8 +271,23 @@ class C11(Prop):
         self.mdb.execute('DELETE FROM user_inst_coll_resources')
         self.mdb.load_rows('user_inst_coll_resources', rows)
 
+    def _real(self, c):
         import contextvars
+        import time as _time
+        self._load(c)
+        self.now_ms = 1_700_000_000_000
+        saved = {k: getattr(_time, k) for k in ('time', 'monotonic', 'time_ns', 'monotonic_ns', 'perf_counter')}
+        _time.time = _time.monotonic = _time.perf_counter = lambda: self.now_ms / 1000
+        _time.time_ns = _time.monotonic_ns = lambda: self.now_ms * 1_000_000
+        try:
+            return self._real_calls(c, contextvars)
+        finally:
+            for k, v in saved.items():
+                setattr(_time, k, v)
+
+    def _real_calls(self, c, contextvars):
         calls, order = self._calls(c)
+        sequential = bool(c.get('sequential'))
         app, pool = self._pool()
         self.db.new_round(len(calls))
         # the autoscaler caller does not return the allocation: observe what the real _compute_fair_share hands back to it
@@ -280,6 +306,11 @@ class C11(Prop):
             return await make()
         tasks = []
         for i, call in enumerate(calls):
+            if sequential:
+                # one call after the other on the one scheduler: the table is as it is at the call's time, the clock has moved on
+                self._load(c, call)
+                self.now_ms += call.get('dt_ms', 0)
+                self.db.new_round(1)
             # the call reads the workers' free cores (or takes its caller's total), then blocks in its demand query (gate i)
             self._set_workers(app, pool, self._workers(call), i)
             kind = call.get('kind', 'loop')
@@ -295,7 +326,12 @@ class C11(Prop):
                 make = pool.regions_to_ready_cores_mcpu_from_estimated_job_queue
             tasks.append(self.loop.create_task(run(i, make)))
             self.loop.settle()
-        for i in order:
+            if sequential:
+                for g in self.db.gates:
+                    if not g.done():
+                        g.set_result(None)
+                self.loop.settle()
+        for i in ([] if sequential else order):
             if i < len(self.db.gates) and not self.db.gates[i].done():
                 self.db.gates[i].set_result(None)
             self.loop.settle()
@@ -344,8 +380,7 @@ class C11(Prop):
         return lines
 
     def model_lines(self, c):
-        users = [x for rd in self._users(c) for x in rd]
-        return [' '.join(map(str, [self._free(call)] + users)) for call in self._calls(c)[0]]
+        return [' '.join(map(str, [self._free(call)] + [x for rd in self._users(c, call) for x in rd])) for call in self._calls(c)[0]]
 
     # ---- the property, on the real output ------------------------------------------------------------
     def oracle(self, c, out):
@@ -356,22 +391,25 @@ class C11(Prop):
             return f'{len(out)} results for {len(calls)} calls'
         for k, (call, line) in enumerate(zip(calls, out)):
             # every call must return what it would return alone: the allocation is a function of the demands and the free cores
-            m = self._oracle_one(c, self._free(call), line)
+            m = self._oracle_one(c, self._free(call), line, call)
             if m:
                 kind = call.get('kind', 'loop')
                 if kind != 'loop':
                     m = (f'caller passes its own total {self._free(call)} ({kind}), workers hold '
                          f'{[w[0] for w in self._workers(call)]}: ') + m
-                if len(calls) > 1:
+                if len(calls) > 1 and c.get('sequential'):
+                    m = (f'call {k} of {len(calls)} calls made one after the other ({call.get("dt_ms", 0)} ms after the previous one, '
+                         f'demand at call time {self._users(c, call)}): ') + m
+                elif len(calls) > 1:
                     m = f'call {k} of {len(calls)} overlapping calls (queries answered in order {order}): ' + m
                 return m
         return None
 
-    def _oracle_one(self, c, free, line):
+    def _oracle_one(self, c, free, line, call=None):
         out = [line]
         if line.startswith('exc '):
             return f'the call raised {line[4:]}'
-        users = self._users(c)
+        users = self._users(c, call)
         if any(r < 0 or d < 0 for r, d in users):
             return None   # inconsistent counters: outside the property's domain
         if not users:
@@ -492,7 +530,29 @@ class C11(Prop):
                 order = list(range(len(calls)))
                 rng.shuffle(order)
                 c['calls'], c['order'] = calls, order
-            if rng.random() < 0.3:
+            elif rng.random() < 0.2 and users:
+                # calls one after the other on the one scheduler (it runs about once a second) while the demand changes in between:
+                # jobs get scheduled, finish, are submitted; the clock moves by 0 ms .. 5 s
+                calls = [{'free': free, 'workers': c.get('workers'), 'rows': c.get('rows') or self._shards(c), 'dt_ms': 0}]
+                cur_users = [list(u) for u in users]
+                for _ in range(rng.choice([1, 1, 2])):
+                    for u in cur_users:
+                        t = rng.random()
+                        if t < 0.35 and u[1] > 0:          # some ready jobs start running
+                            k = rng.randint(1, u[1])
+                            u[0] += k
+                            u[1] -= k
+                        elif t < 0.55 and u[0] > 0:        # running jobs finish
+                            u[0] -= rng.randint(1, u[0])
+                        elif t < 0.8:                      # new jobs are submitted
+                            u[1] += rng.choice([250, 1000, 1000, 4000, rng.randint(1, 10 ** 5)])
+                    f2 = free if rng.random() < 0.4 else self._gen_free(rng, [tuple(u) for u in cur_users])[0]
+                    rows2 = self._shard(rng, cur_users)[0] if rng.random() < 0.7 else \
+                        [[i, 0, _njobs(d), d, _njobs(r), r] for i, (r, d) in enumerate(cur_users)]
+                    calls.append({'free': f2, 'workers': self._gen_workers(rng, f2) if rng.random() < 0.5 else None, 'rows': rows2,
+                                  'dt_ms': rng.choice([0, 0, 1, 200, 500, 999, 1000, 1001, 2000, 5000])})
+                c['calls'], c['order'], c['sequential'] = calls, list(range(len(calls))), True
+            if rng.random() < 0.3 and not c.get('sequential'):
                 # the other callers: the autoscaler computes its own total (0 when it may not create instances) and passes it
                 # explicitly -- while the pool's workers have room of their own
                 calls = c.get('calls') or [{'free': free, 'workers': c.get('workers')}]
@@ -633,6 +693,13 @@ class C11(Prop):
             tags.append('rows-of-other-inst-colls')
         ws = [w for call in calls for w in self._workers(call)]
         tags.append(f'calls={len(calls)}')
+        if c.get('sequential') and len(calls) > 1:
+            tags.append('sequential-calls')
+            if any(self._users(c, a) != self._users(c, b) for a, b in zip(calls, calls[1:])):
+                tags.append('demand-changed-between-calls')
+            for call in calls[1:]:
+                dt = call.get('dt_ms', 0)
+                tags.append('gap=' + ('0ms' if dt == 0 else '<1s' if dt < 1000 else '>=1s'))
         for call in calls:
             k = call.get('kind', 'loop')
             tags.append('caller=' + {'loop': 'compute_fair_share()', 'explicit': '_compute_fair_share(total)',
@@ -640,7 +707,8 @@ class C11(Prop):
             if k != 'loop' and self._free(call) <= 0 and any(w[0] > 0 for w in self._workers(call)):
                 tags.append('explicit-total<=0-while-workers-have-room')
         if len(calls) > 1:
-            tags.append('overlapping:answered-in-call-order' if order == sorted(order) else 'overlapping:answered-out-of-order')
+            if not c.get('sequential'):
+                tags.append('overlapping:answered-in-call-order' if order == sorted(order) else 'overlapping:answered-out-of-order')
         tags.append('workers=1' if len(ws) == 1 else 'workers>1')
         if any(w[0] < 0 and w[2] == 'active' and w[3] <= 1 for w in ws):
             tags.append('oversubscribed-worker(free<0)')
@@ -697,6 +765,9 @@ class C11(Prop):
             del d['users'][i]
             d['rows'] = [[r[0] - (r[0] > i)] + r[1:] for r in d['rows'] if r[0] != i]
             d['other'] = [[r[0] - (r[0] > i)] + r[1:] for r in (d.get('other') or []) if r[0] != i]
+            for call in d.get('calls') or []:
+                if call.get('rows') is not None:
+                    call['rows'] = [[r[0] - (r[0] > i)] + r[1:] for r in call['rows'] if r[0] != i]
             return d
         if cur.get('rows') is None:
             cur['rows'] = self._shards(cur)
@@ -715,7 +786,7 @@ class C11(Prop):
                 for i, call in enumerate(calls):       # one plain worker per call
                     if call.get('workers') is not None and call.get('kind', 'loop') == 'loop':
                         d = json.loads(json.dumps(cur))
-                        d['calls'][i] = {'free': self._free(call)}
+                        d['calls'][i] = {k: v for k, v in call.items() if k in ('rows', 'dt_ms')} | {'free': self._free(call)}
                         if fails(d):
                             cur, changed = d, True
                             break
